@@ -6,22 +6,19 @@ Shell / jobc / signals code (wait statuses injected through the cfg(cicada_verif
 through the extracted model; after every operation both print the job table, the four parked
 maps, the wait result and how many statuses were left unconsumed; the lines must be identical.
 The property's oracle (ground truth = process states updated by the consumed statuses) is
-evaluated on the IMPLEMENTATION's snapshots. Layer L0: slice::binary_search of the toolchain
-the shell is built with vs the transcribed binary_search_by on every short vector."""
+evaluated on the IMPLEMENTATION's snapshots."""
 import itertools, re
 import common as C
 
-EXTRACT = ["C06", "C06r"]
+EXTRACT = ["C06"]
 BINS = ["c06"]
 NEEDS_CICADA = False
 ALLOWED_AXIOMS = []
-PINNED = ["C06_full", "C06_refuted", "C06_refuted_unsorted", "C06_refuted_count_waited", "C06_refuted_stop_cont_parked",
-          "C06_refuted_exit_among_stopped", "C06_refuted_partial_continue", "C06_ids", "C06_binary_search", "C06_partial",
-          "C06_nonvacuous"]
+PINNED = ["C06_full_statement", "C06_full", "C06_invariant", "C06_ids", "C06_remove_pid", "C06_regressions", "C06_nonvacuous"]
 TRUSTED = [
     "Coq 8.16.1 kernel (coqc; coqchk in thorough); vm_compute only in refutation witnesses / Examples",
     "hand transcription of shell.rs job methods, jobc.rs, signals.rs maps, types.rs Job/WaitStatus and of "
-    "core::slice::binary_search_by (coq/theories/Model/Jobs.v), tied by differential execution (L0, L1)",
+    "(coq/theories/Model/Jobs.v), tied by differential execution (L1)",
     "HashMap / HashSet modelled as strictly sorted association lists; the id-scan loops' upper bound 65535 and the "
     "job command text are not modelled",
     "extraction: ExtrOcamlBasic only; OCaml 4.13.1; ocaml/c06/drv.ml",
@@ -36,32 +33,6 @@ ASSUMES = [
     "and are delivered first to the next one",
     "per process the kernel reports (stop cont)* then exit|kill",
 ]
-
-def gen(ctx):
-    """Gen/JobsRepaired.v: the model with the proposed repair of finding `unsorted` (linear `position` search instead
-    of binary_search), produced from Model/Jobs.v by replacing that one definition. It is the reference for the
-    outcome `finding repaired` inside class unsorted; no theorem depends on it."""
-    import os
-    src = open(os.path.join(C.COQ, "theories/Model/Jobs.v")).read()
-    a = src.index("Fixpoint bs_loop")
-    b = src.index("Fixpoint remove_at")
-    rep = ("Fixpoint position_from (i : nat) (l : list Z) (x : Z) : nat + nat :=\n"
-           "  match l with [] => inr 0%nat | y :: r => if y =? x then inl i else position_from (S i) r x end.\n\n"
-           "Definition binary_search (l : list Z) (x : Z) : nat + nat := position_from 0%nat l x.\n\n")
-    out = "(* GENERATED by drive/c06.py gen() from Model/Jobs.v -- do not edit *)\n" + src[:a] + rep + src[b:]
-    files = {"theories/Gen/JobsRepaired.v": out,
-             "theories/Extract/C06r.v": "From Coq Require Import Extraction ExtrOcamlBasic.\nFrom Cicada Require Import Gen.JobsRepaired.\n"
-                                        "Extraction Language OCaml.\nExtraction \"c06r_model.ml\" step trace init_rst binary_search.\n"}
-    for rel, txt in files.items():
-        p = os.path.join(C.COQ, rel)
-        os.makedirs(os.path.dirname(p), exist_ok=True)
-        if not os.path.exists(p) or open(p).read() != txt:
-            open(p, "w").write(txt)
-    drv = open(os.path.join(C.VERIF, "ocaml/c06/drv.ml")).read().replace("open C06_model", "open C06r_model")
-    p = os.path.join(C.VERIF, "ocaml/c06r/drv.ml")
-    if not os.path.exists(p) or open(p).read() != drv:
-        open(p, "w").write(drv)
-
 
 SNAP = re.compile(r"jobs=\[(.*?)\] reap=\[(.*?)\] stop=\[(.*?)\] cont=\[(.*?)\] kill=\[(.*?)\] st=(-?\d+) blk=(\d) left=(\d+)$")
 
@@ -108,43 +79,6 @@ def ev_status(e):
 def apply_truth(truth, e):
     k, p = e[0], e[1]
     truth[p] = {"x": "D", "k": "D", "s": "S", "c": "R"}[k]
-
-
-def known_classes(h):
-    """The decidable classes of Known_C06 (same definitions as known_* in coq/theories/Proofs/JobsSpec.v),
-    computed from the history alone."""
-    cls = set()
-    multi = set()
-    for o in h:
-        if o[0] == "L":
-            p = o[3]
-            if any(a >= b for a, b in zip(p, p[1:])):
-                cls.add("unsorted")
-            if len(p) >= 2:
-                multi.update(p)
-    # stop / continue of a member of a multi-process job
-    for o in h:
-        evs = o[3] if o[0] == "W" else o[1] if o[0] == "P" else []
-        for e in evs:
-            if e[0] in "sc" and e[1] in multi:
-                cls.add("member_stop")
-    # a stop and a continue of one process with no poll between them
-    ps, pc = set(), set()
-    for o in h:
-        evs = o[3] if o[0] == "W" else o[1] if o[0] == "P" else []
-        fg = o[2] if o[0] == "W" else []
-        for e in evs:
-            if e[1] in fg:
-                continue   # statuses of the waited job itself are applied at once, not parked
-            if e[0] == "s":
-                ps.add(e[1])
-            elif e[0] == "c":
-                pc.add(e[1])
-        if ps & pc:
-            cls.add("stop_cont_parked")
-        if o[0] == "P":
-            ps, pc = set(), set()
-    return cls
 
 
 def oracle(h, snaps):
@@ -251,16 +185,6 @@ def oracle(h, snaps):
                 bad.append((ix, "status_stopped", "job %s shown %s, a live process of it is running" % (j["id"], j["status"])))
         prev_ids = ids
     return bad
-
-
-# which known class explains which oracle failure
-EXPLAINS = {
-    "unsorted": {"zombie", "wait_late", "wait_early", "wait_status", "status_running", "status_stopped", "pstate", "lost"},
-    "member_stop": {"wait_early", "wait_late", "wait_status", "status_running", "status_stopped", "pstate"},
-    "stop_cont_parked": {"parked_order", "pstate", "status_running", "status_stopped"},
-}
-# sub-mechanism names used in known_findings.txt for the member_stop class
-SUBCLASS = {"wait_early": "count_waited", "status_running": "exit_among_stopped", "status_stopped": "partial_continue"}
 
 
 # ------------------------------------------------------------------ history generation
@@ -409,34 +333,6 @@ def random_history(rng, max_events, njobs_max):
 def run(ctx, res):
     rng = ctx.rng
     thorough = ctx.thorough
-    known = {k["class"]: k for k in C.known_findings("C06")}
-    # ---------------- L0: binary_search
-    vals = [1, 2, 3, 4]
-    bs_cases = []
-    for n in range(0, 5 if not thorough else 6):
-        for v in itertools.product(vals, repeat=n):
-            for x in (0, 1, 2, 3, 4, 5):
-                bs_cases.append((",".join(map(str, v)), str(x)))
-    for _ in range(3000 if not thorough else 30000):
-        n = rng.randint(5, 12)
-        v = [rng.randint(-5, 30) for _ in range(n)]
-        if rng.random() < 0.5:
-            v.sort()
-        bs_cases.append((",".join(map(str, v)), str(rng.choice(v + [rng.randint(-6, 31)]))))
-    p0 = C.write_cases("c06_bs.txt", [C.case("bs", a, b) for a, b in bs_cases])
-    m0 = C.run_model(ctx.model["C06"], p0)
-    i0 = C.run_impl(ctx.bins["c06"], p0, len(bs_cases))
-    res.count("L0_binary_search", len(bs_cases))
-    nb = 0
-    for (a, b), x, y in zip(bs_cases, m0, i0):
-        if x.startswith("Ok"):
-            res.nontrivial("bs:" + x + ":" + str(len(a)))
-        if x != y:
-            nb += 1
-            if nb <= 2:
-                res.violate(kind="correspondence", layer="L0", function="slice::binary_search", input="[%s] search %s" % (a, b),
-                            model=x, impl=y, failing_input=False,
-                            note="the toolchain's binary_search differs from the transcribed binary_search_by")
     # ---------------- L1: histories
     hs = []
     if ctx.replay:
@@ -445,7 +341,7 @@ def run(ctx, res):
         if "history" in r:
             hs.append([tuple(o) for o in r["history"]])
     corpus = [
-        # the recorded witnesses first
+        # the witness of the repaired binary_search defect (fixed: bbf8fc1) as a regression case, then the recorded witnesses
         [("L", 9, False, [9, 3]), ("W", 9, [9, 3], [("x", 9, 0), ("x", 3, 0)]), ("P", [])],
         [("L", 3, False, [3, 9]), ("W", 3, [3, 9], [("s", 3, 19), ("c", 3), ("x", 3, 0), ("x", 9, 5)]), ("P", [])],
         [("L", 5, True, [5]), ("P", [("s", 5, 19), ("c", 5)]), ("P", []), ("P", [("x", 5, 0)])],
@@ -479,100 +375,44 @@ def run(ctx, res):
     hs = [h for h, _ in uniq]
     path = C.write_cases("c06_l1.txt", [k for _, k in uniq])
     mo = C.run_model(ctx.model["C06"], path, timeout=3000)
-    mor = C.run_model(ctx.model["C06r"], path, timeout=3000)   # model with the `position` repair
     io = C.run_impl(ctx.bins["c06"], path, len(hs), timeout=3000)
     res.count("L1_histories", len(hs))
     res.extra["histories_enumerated"] = n_exh
     res.extra["histories_random"] = nrand
-    res.rule = ("L0: slice::binary_search vs the transcription on every vector of length <= %d over {1..4} (sorted or not) "
-                "and random longer ones. L1: every history of at most %d atoms (launch / status / poll) for every "
+    res.rule = ("L1: every history of at most %d atoms (launch / status / poll) for every "
                 "configuration of <= 3 jobs x <= 3 processes x fg/bg with ascending and non-ascending pid vectors (capped at %d "
                 "per configuration, depth first), plus %d random histories of up to %d or 25 statuses; per operation the job "
                 "table, the four parked maps, the wait status, blocked flag and unconsumed count are compared; non-trivial = "
                 "distinct final snapshot in which a job is present or a status is parked"
-                % (5 if thorough else 4, max_atoms, cap_per_cfg, nrand, max_events))
+                % (max_atoms, cap_per_cfg, nrand, max_events))
     ncorr = 0
     nviol = 0
-    stats = {"in_known_class": 0, "known_reproduced": 0, "known_class_but_oracle_holds": 0, "oracle_ok": 0}
-    for h, a, b, ar in zip(hs, mo, io, mor):
-        msn = a.split(" | ")
-        last = msn[-1]
+    stats = {"oracle_ok": 0, "with_stop_or_continue": 0, "multi_process_stop": 0}
+    for h, a, b in zip(hs, mo, io):
+        last = a.split(" | ")[-1]
         if "jobs=[]" not in last or "reap=[] stop=[] cont=[] kill=[]" not in last:
             res.nontrivial(last)
-        cls = known_classes(h)
-        if "unsorted" in cls and a == ar:
-            # the binary search missed no pid in this history: the mechanism did not fire
-            cls = cls - {"unsorted"}
-        if "unsorted" in cls and b != a and b == ar:
-            # the binary_search finding is repaired in this tree: the reference is the repaired model and
-            # the history is judged as a member of its remaining classes only
-            stats["unsorted_repaired"] = stats.get("unsorted_repaired", 0) + 1
-            cls = cls - {"unsorted"}
-            a = ar
-        snaps = [parse_snap(x) for x in b.split(" | ")] if b not in ("PANIC", "CRASH", "NOT-RUN", None) else []
+        snaps = [parse_snap(x) for x in b.split(" | ")] if b not in ("PANIC", "CRASH", "NOT-RUN", "HANG", None) else []
         while len(snaps) < len(h):
             snaps.append(None)
         bad = oracle(h, snaps)
-        agree = a == b
         hist_txt = "\t".join(op_txt(o) for o in h)
-        if not cls:
-            if bad:
-                nviol += 1
-                if nviol <= 3:
-                    res.violate(kind="oracle", layer="L1", input=hist_txt, history=[list(o) for o in h],
-                                expected="C06 oracle holds after every operation", observed="; ".join(
-                                    "op %d: %s: %s" % x for x in bad[:4]), model=a, impl=b, failing_input=True,
-                                note="job table / wait result of the implementation contradicts the ground truth")
-            elif not agree:
-                ncorr += 1
-                if ncorr <= 3:
-                    res.violate(kind="correspondence", layer="L1", input=hist_txt, history=[list(o) for o in h], model=a,
-                                impl=b, failing_input=False, note="model and implementation print different snapshots")
-            else:
-                stats["oracle_ok"] += 1
-            continue
-        stats["in_known_class"] += 1
-        if not bad:
-            # the implementation satisfies the oracle on this history; it must still be the modelled behaviour
-            stats["known_class_but_oracle_holds"] += 1
-            if not agree:
-                ncorr += 1
-                if ncorr <= 3:
-                    res.violate(kind="correspondence", layer="L1", input=hist_txt, history=[list(o) for o in h], model=a,
-                                impl=b, failing_input=False, note="model and implementation print different snapshots")
-            continue
-        # the first failure must be one a recorded mechanism produces; what follows it in the same
-        # history is a consequence of the same wrong state (model and implementation agree on all of it)
-        first_ix = min(i for i, _, _ in bad)
-        kinds = {k for i, k, _ in bad if i == first_ix}
-        explained = all(any(k in EXPLAINS[c] for c in cls) for k in kinds)
-        if agree and explained:
-            stats["known_reproduced"] += 1
-            for c in sorted(cls):
-                if not (kinds & EXPLAINS[c]):
-                    continue
-                names = [c]
-                if c == "member_stop":
-                    names = sorted({SUBCLASS[k] for k in kinds if k in SUBCLASS}) or []
-                for nm in names:
-                    if nm in known:
-                        res.known(nm, "class=%s input=\"%s\" what=%s" % (nm, hist_txt.replace("\t", " "), bad[0][2]))
-                    else:
-                        nviol += 1
-                        if nviol <= 3:
-                            res.violate(kind="oracle", layer="L1", input=hist_txt, history=[list(o) for o in h],
-                                        observed="; ".join("op %d: %s: %s" % x for x in bad[:4]), model=a, impl=b,
-                                        failing_input=True, note="failure of class %s is not recorded in known_findings.txt" % nm)
-        else:
+        if "s" in hist_txt.replace("\t", " ").split(":", 1)[-1] and any(e[0] in "sc" for o in h if o[0] != "L" for e in (o[3] if o[0] == "W" else o[1])):
+            stats["with_stop_or_continue"] += 1
+        if bad:
             nviol += 1
             if nviol <= 3:
                 res.violate(kind="oracle", layer="L1", input=hist_txt, history=[list(o) for o in h],
-                            expected="inside a known class: the recorded (modelled) behaviour or a correct one",
-                            observed="; ".join("op %d: %s: %s" % x for x in bad[:4]), model=a, impl=b, failing_input=True,
-                            note="wrong, but differently from the recorded behaviour of classes %s" % sorted(cls))
-    for c in known:
-        if c not in res.known_hits:
-            res.extra.setdefault("findings_no_longer_reproducing", []).append(c)
+                            expected="C06 oracle holds after every operation", observed="; ".join(
+                                "op %d: %s: %s" % x for x in bad[:4]), model=a, impl=b, failing_input=True,
+                            note="job table / wait result of the implementation contradicts the ground truth")
+        elif a != b:
+            ncorr += 1
+            if ncorr <= 3:
+                res.violate(kind="correspondence", layer="L1", input=hist_txt, history=[list(o) for o in h], model=a,
+                            impl=b, failing_input=False, note="model and implementation print different snapshots")
+        else:
+            stats["oracle_ok"] += 1
     res.extra["l1_stats"] = stats
     for ix in (0, 2, len(hs) // 2):
         res.sample({"layer": "L1", "input": op_txt(hs[ix][0]) + " ...", "history": [op_txt(o) for o in hs[ix]],
